@@ -1,1 +1,4 @@
-
+import Proofs.Vlq
+import Proofs.Codec
+import Proofs.Types
+import Proofs.Framing
